@@ -27,6 +27,7 @@ mod c19;
 mod c18;
 mod c01;
 mod c04;
+mod c10;
 mod util;
 
 use std::path::PathBuf;
@@ -93,6 +94,7 @@ fn main() {
         "C18" => c18::run(&cfg, &mut out),
         "C01" => c01::run(&cfg, &mut out),
         "C04" => c04::run(&cfg, &mut out),
+        "C10" => c10::run(&cfg, &mut out),
         other => {
             eprintln!("unknown property {}", other);
             std::process::exit(2);
